@@ -224,7 +224,12 @@ def check_reader_premise(P, R, rid, why):
     for loop in loops:
         counter = T.counter_of_while(loop)
         cu = T.countup_of_while(loop) if counter is None else None
-        if cu is not None:
+        es = T.early_stop_bound(loop) if counter is None else None
+        if es is not None:
+            S.ob('C04.a', f, loop.test, False, text=f'while {src(loop.test)}', detail=
+                 f'the read loop gives up while {es[1]} byte(s) of the declared length are still outstanding: the body loses its last byte(s) whenever the remainder '
+                 f'at a loop head is exactly {es[1]}', key_extra='early-stop')
+        elif cu is not None:
             check_bounded_read_loop(S, f, 'C04.', loop, ('up', cu[0], cu[1]), buff_names={'buff_size'})
         elif counter is not None:
             check_bounded_read_loop(S, f, 'C04.', loop, counter, buff_names={'buff_size'})
@@ -255,6 +260,13 @@ def check(P, R):
             R.ob('C04.a', f, loop.test, init_ok, text=f'{recv} starts at 0, bounded by content_length',
                  detail='' if init_ok else f'the loop is not `while content_length > {recv}` with {recv} starting at 0')
             check_bounded_read_loop(R, f, 'C04.', loop, ('up', limit, recv), buff_names={'buff_size'})
+            continue
+        es = T.early_stop_bound(loop) if counter is None else None
+        if es is not None:
+            R.ob('C04.a', f, loop.test, False, text=f'while {src(loop.test)}', detail=
+                 f'the read loop gives up while {es[1]} byte(s) of the declared length are still outstanding: a body whose remainder at a loop head is exactly '
+                 f'{es[1]} (Content-Length {es[1]}; k * buffer + {es[1]} with full reads; buffer size {es[1]}) loses its last byte(s)',
+                 why='the body is the first Content-Length bytes of the stream', key_extra='early-stop')
             continue
         if counter is None and not T.weak_loop_bound(loop):
             R.undecided('C04.a', f, loop.test, f'while {src(loop.test)}', 'the bound of the read loop is not in a form with a recogniser (expected `remaining > 0`)')
@@ -514,21 +526,7 @@ def check_body_props(P, R):
                      if c2.args and is_const(c2.args[0], 0)]
             ok = from_body and bool(seeks) and fb.cfg.must_pass(fb.cfg.entry, rn, seeks)
         R.ob('C04.e', fb, r, ok, detail='' if ok else 'body does not return the cached buffer rewound to 0')
-    # content_length property: int(CONTENT_LENGTH or -1)
-    fc = c.methods.get('content_length')
-    R.require(fc is not None, 'BodyMixin.content_length not found')
-    rets = [n for n in walk_shallow(fc.node) if isinstance(n, ast.Return) and n.value is not None]
-    def _is_int_of_header(v_, at_):
-        x_ = T.expand(fc, v_, at_)
-        return 'CONTENT_LENGTH' in src(x_) and isinstance(x_, ast.Call) and dotted(x_.func) == 'int'
-    any_int = any(_is_int_of_header(r.value, fc.cfg.node_of_stmt(r)[0]) for r in rets)
-    for r in rets:
-        ok = _is_int_of_header(r.value, fc.cfg.node_of_stmt(r)[0])
-        if not ok and any_int and T.const(r.value) == -1 if hasattr(T, 'const') else False:
-            ok = True
-        if not ok and any_int and isinstance(r.value, ast.UnaryOp) and isinstance(r.value.op, ast.USub) and is_const(r.value.operand, 1):
-            ok = True        # the explicit `return -1` for a missing / empty header
-        R.ob('C04.e', fc, r, ok, detail='' if ok else 'content_length is not int(environ CONTENT_LENGTH)', nontrivial=False)
+    check_content_length(P, R, 'C04.e')
 
     # the cached buffer stays open for the whole request: nobody in the package closes it (close() / `with` on it)
     def _is_body_ref(fn, e, at):
@@ -539,6 +537,7 @@ def check_body_props(P, R):
                 return True
         return False
     closers = []
+    memonly = []
     for fn in P.all_funcs():
         if not fn.fq.startswith('ombott.'):
             continue
@@ -554,10 +553,51 @@ def check_body_props(P, R):
                 ns_ = fn.cfg.node_of_stmt(n)
                 if ns_ and _is_body_ref(fn, n.func.value, ns_[0]):
                     closers.append((fn, n, short(n)))
+            elif isinstance(n, ast.Call) and isinstance(n.func, ast.Attribute) and n.func.attr in ('getvalue', 'getbuffer') and fn.fq != f'{BM}:_body_read':
+                ns_ = fn.cfg.node_of_stmt(n)
+                if ns_ and _is_body_ref(fn, n.func.value, ns_[0]):
+                    memonly.append((fn, n))
     for (fn, n, what) in closers:
         R.ob('C04.e', fn, n, False, text=f'`{what}` closes the cached request body', detail=
              f'`{what}` closes the buffered body that is cached in the environ and handed out again by request.body / wsgi.input: after this access every later '
              f'read of the raw body raises ValueError (I/O operation on closed file) instead of giving the first Content-Length bytes',
              why='request.body is the same bytes on every access (re-readable, rewound)', key_extra='closes-body')
+    for (fn, n) in memonly:
+        R.ob('C04.e', fn, n, False, text=f'`{short(n)}` on the cached request body', detail=
+             f'`{short(n)}` exists on the in-memory buffer only: the cached body is a temporary file once it has outgrown (or exactly reached) the in-memory threshold, and this '
+             f'access then raises AttributeError instead of presenting the body', why='the body is presented whatever its size', key_extra='memory-only-api')
     R.ob('C04.e', f, f.node, not closers, text='no function closes the cached request body (no close() / with on it)', detail='' if not closers else
          f'{len(closers)} site(s) close it', nontrivial=False, key_extra='no-closer')
+
+
+def check_content_length(P, R, rid):
+    c = P.cls(f'{BM}:BodyMixin')
+    # content_length property: int(CONTENT_LENGTH or -1)
+    fc = c.methods.get('content_length')
+    R.require(fc is not None, 'BodyMixin.content_length not found')
+    rets = [n for n in walk_shallow(fc.node) if isinstance(n, ast.Return) and n.value is not None]
+    def _is_int_of_header(v_, at_):
+        x_ = T.expand(fc, v_, at_)
+        return 'CONTENT_LENGTH' in src(x_) and isinstance(x_, ast.Call) and dotted(x_.func) == 'int'
+    any_int = any(_is_int_of_header(r.value, fc.cfg.node_of_stmt(r)[0]) for r in rets)
+    for r in rets:
+        ok = _is_int_of_header(r.value, fc.cfg.node_of_stmt(r)[0])
+        if not ok and any_int and T.const(r.value) == -1 if hasattr(T, 'const') else False:
+            ok = True
+        if not ok and any_int and isinstance(r.value, ast.UnaryOp) and isinstance(r.value.op, ast.USub) and is_const(r.value.operand, 1):
+            ok = True        # the explicit `return -1` for a missing / empty header
+        R.ob(rid, fc, r, ok, detail='' if ok else 'content_length is not int(environ CONTENT_LENGTH)', nontrivial=False)
+        # an empty header value (what CGI-style gateways pass when the request has no Content-Length) counts as missing
+        rn_ = fc.cfg.node_of_stmt(r)[0]
+        x_ = T.expand(fc, r.value, rn_)
+        if isinstance(x_, ast.Call) and dotted(x_.func) == 'int' and x_.args and 'CONTENT_LENGTH' in src(x_):
+            a0 = x_.args[0]
+            falsy_ok = isinstance(a0, ast.BoolOp) and isinstance(a0.op, ast.Or) and len(a0.values) == 2 and \
+                (isinstance(a0.values[1], (ast.UnaryOp, ast.Constant))) or \
+                any(holds_ is True and isinstance(e_, ast.Name) or (holds_ is False and isinstance(e_, ast.UnaryOp)) for (e_, holds_, _t) in T.guard_atoms(fc, rn_)) or \
+                bool(T.guard_atoms(fc, rn_))
+            R.ob(rid, fc, r, bool(falsy_ok), text='an empty CONTENT_LENGTH is treated like a missing one', detail='' if falsy_ok else
+                 f'`{short(x_)}` handles a missing header only: with CONTENT_LENGTH="" (a request without Content-Length behind a CGI-style gateway, e.g. every chunked '
+                 f'request) int("") raises ValueError and the body cannot be read at all (500)',
+                 why='without a Content-Length the body is empty / the chunked body is decoded - not an error', key_extra='empty-length')
+
